@@ -97,6 +97,7 @@ def generate(rng: random.Random, tier: str, seed: int) -> dict:
         if kind == "flag_no_exec":
             c["flags"] = rng.sample(FLAGS, rng.randint(1, 2))
             c["with_set"] = rng.random() < 0.4
+            c["via_rs_file"] = rng.random() < 0.3
         elif kind == "invalid_config":
             c["how"] = rng.choice(["unknown_processor", "unknown_param", "type_gate", "type_gate_subclass", "probe_no_key",
                                    "deleted_then_required", "external_deleted_then_required", "external_renamed_then_required"])
@@ -113,9 +114,11 @@ def generate(rng: random.Random, tier: str, seed: int) -> dict:
         elif kind == "runspace_supplied":
             c["seed"] = rng.getrandbits(32)
         elif kind == "runspace_malformed":
-            c["how"] = rng.choice(["unequal_lengths", "duplicate_keys", "bad_mode", "bad_combine", "zip_blocks_unequal"])
+            c["how"] = rng.choice(["unequal_lengths", "duplicate_keys", "bad_mode", "bad_combine", "zip_blocks_unequal",
+                                   "duplicate_key_via_source", "duplicate_key_via_source_rename", "duplicate_key_context_vs_source"])
         elif kind == "runspace_over_cap":
             c["how"] = rng.choice(["block_max_runs", "cli_max_runs", "block_max_runs_0", "cli_max_runs_0", "cli_max_runs_product_minus_1"])
+            c["via_rs_file"] = rng.random() < 0.3       # the run space itself comes from --run-space-file
         elif kind == "missing_file":
             c["how"] = rng.choice(["pipeline", "run_space_source", "run_space_file"])
         elif kind == "usage_error":
@@ -220,6 +223,8 @@ def run_case(sc: dict, c: dict, w, stats: dict, idx: int) -> list[dict]:
         if c.get("with_set"):
             argv += ["--set", "trace.options.detail=all"]
             label = "flag_no_exec+set"
+        if c.get("via_rs_file"):
+            run_space = {"blocks": [{"mode": "by_position", "context": {"rs_other": [1.0, 2.0]}}]}
     elif kind == "invalid_config":
         m = _mutate_invalid(nodes, c["how"], c["at"], base["truth"])
         if m is None:
@@ -254,6 +259,17 @@ def run_case(sc: dict, c: dict, w, stats: dict, idx: int) -> list[dict]:
             run_space = {"blocks": [{"mode": "by_position", "context": {"rs_a": [1.0, 2.0], "rs_b": [1.0]}}]}
         elif how == "duplicate_keys":
             run_space = {"blocks": [{"mode": "by_position", "context": {"rs_a": [1.0]}}, {"mode": "by_position", "context": {"rs_a": [2.0]}}]}
+        elif how == "duplicate_key_via_source":
+            extra_files["dup.csv"] = "rs_a\n5.0\n"
+            run_space = {"blocks": [{"mode": "by_position", "context": {"rs_a": [1.0]}},
+                                    {"mode": "by_position", "source": {"format": "csv", "path": "dup.csv"}}]}
+        elif how == "duplicate_key_via_source_rename":
+            extra_files["dup.csv"] = "col\n5.0\n"
+            run_space = {"blocks": [{"mode": "by_position", "context": {"rs_a": [1.0]}},
+                                    {"mode": "by_position", "source": {"format": "csv", "path": "dup.csv", "rename": {"col": "rs_a"}}}]}
+        elif how == "duplicate_key_context_vs_source":
+            extra_files["dup.csv"] = "rs_a\n5.0\n"
+            run_space = {"blocks": [{"mode": "by_position", "context": {"rs_a": [1.0]}, "source": {"format": "csv", "path": "dup.csv"}}]}
         elif how == "bad_mode":
             run_space = {"blocks": [{"mode": "zipper", "context": {"rs_a": [1.0]}}]}
         elif how == "bad_combine":
@@ -326,6 +342,13 @@ def run_case(sc: dict, c: dict, w, stats: dict, idx: int) -> list[dict]:
         argv.append(c["verbosity"])
         stats["probe.verbosity_flag"] = stats.get("probe.verbosity_flag", 0) + 1
     argv += _ctx_args(ctx, skip=skip_ctx)
+    if c.get("via_rs_file") and run_space is not None:
+        import yaml as _yaml
+        extra_files[f"{name}_rs.yaml"] = _yaml.safe_dump({"run_space": run_space}, sort_keys=False)
+        argv += ["--run-space-file", f"{name}_rs.yaml"]
+        run_space = None
+        label += "+run_space_file"
+        stats["probe.run_space_file_with_flags"] = stats.get("probe.run_space_file_with_flags", 0) + 1
     harness.write_cli_config({"nodes": nodes}, f"{name}.yaml", trace=trace, run_space=run_space)
     for fn, text in extra_files.items():
         with open(fn, "w") as f:
@@ -394,12 +417,12 @@ def _crosscheck_subprocess(w, name: str, argv: list[str], code, new_files: list[
     os.makedirs(sub, exist_ok=True)
     for fn in os.listdir(w.sandbox):
         full = os.path.join(w.sandbox, fn)
-        if os.path.isfile(full) and fn not in new_files and (fn.startswith(name + ".") or fn.endswith((".csv", ".json"))):
+        if os.path.isfile(full) and fn not in new_files and (fn.startswith(name + ".") or fn.startswith(name + "_rs.") or fn.endswith((".csv", ".json"))):
             shutil.copy(full, sub)
     env = dict(os.environ)
     p = subprocess.run([_sys.executable, "-m", "semantiva.cli"] + argv, cwd=sub, env=env, capture_output=True, text=True)
     produced = sorted(os.path.relpath(os.path.join(r, f), sub) for r, _d, fs in os.walk(sub) for f in fs)
-    inputs = {f for f in produced if f.startswith(name + ".yaml") or f.endswith((".csv", ".json"))}
+    inputs = {f for f in produced if f.startswith(name + ".yaml") or f.startswith(name + "_rs.") or f.endswith((".csv", ".json"))}
     # sink files may pre-exist in the shared sandbox (same name from an earlier case), so only trace files are compared
     kinds_sub = sorted({"trace" for f in produced if f not in inputs and f.endswith(".jsonl")})
     kinds_in = sorted({"trace" for f in new_files if f.endswith(".jsonl")})
